@@ -34,7 +34,7 @@ package builder
 //@   reveal wfNode, exprType, returnsError, parentOf, objNameOf
 //@   requires wfB(b) && lhsType != nil && bmodel.wfNode(rhs)
 //@   use T10(), T6(lhsType)
-//@   effects log
+//@   effects log, warn
 //@   ensures {C04,C01,C07,C02} ok == (castOf(b, lhsType, rhs) != nil) && (ok ==> c == castOf(b, lhsType, rhs)) && (!ok ==> c == nil)
 //@   ensures {C04,C01} ok ==> bmodel.wfNode(c) && assignable(bmodel.exprType(c), lhsType)
 //@   ensures {C04} ok && !b.opts.Typecast ==> c == rhs || !is(c, bmodel.TypecastEntry)
@@ -125,8 +125,9 @@ package builder
 //@   reveal wfNode, exprType, returnsError, parentOf, objNameOf
 //@   requires wfB(b) && bmodel.wfNode(lhs) && bmodel.wfNode(rhs) && plainPath(rhs) && convReady(converter)
 //@   use T10()
-//@   effects log
+//@   effects log, warn
 //@   ensures {C06,C07,C05} err == nil && (is(a, gmodel.SimpleField) || isNoMatch(a, bmodel.assignExpr(lhs)))
+//@   ensures {C05} isNoMatch(a, bmodel.assignExpr(lhs)) ==> $warn.n >= old($warn.n) + 2 && $warn.sink[$warn.n-1] == logger.elogger
 //@   ensures {C06,C07} is(a, gmodel.SimpleField) ==> as(a, gmodel.SimpleField).LHS == bmodel.assignExpr(lhs) && as(a, gmodel.SimpleField).Error == converter.retError
 //@   check {C06,C02,C01} is(a, gmodel.SimpleField) ==> converterNode != nil && as(a, gmodel.SimpleField).RHS == bmodel.assignExpr(converterNode) && assignable(bmodel.exprType(converterNode), bmodel.exprType(lhs))
 //@
@@ -144,8 +145,9 @@ package builder
 //@   reveal wfNode, exprType, returnsError, parentOf, objNameOf
 //@   requires wfB(b) && bmodel.wfNode(lhs) && bmodel.wfNode(rhs) && plainPath(rhs) && option.nmInv(mapper)
 //@   use T10()
-//@   effects log
+//@   effects log, warn
 //@   ensures {C06,C07,C05} err == nil && (is(a, gmodel.SimpleField) || isNoMatch(a, bmodel.assignExpr(lhs)))
+//@   ensures {C05} isNoMatch(a, bmodel.assignExpr(lhs)) ==> $warn.n >= old($warn.n) + 2 && $warn.sink[$warn.n-1] == logger.elogger
 //@   ensures {C06} is(a, gmodel.SimpleField) ==> as(a, gmodel.SimpleField).LHS == bmodel.assignExpr(lhs)
 //@   check {C06,C07,C02,C01} is(a, gmodel.SimpleField) ==> mappedNode != nil && as(a, gmodel.SimpleField).RHS == bmodel.assignExpr(mappedNode) && as(a, gmodel.SimpleField).Error == bmodel.returnsError(mappedNode) && assignable(bmodel.exprType(mappedNode), bmodel.exprType(lhs))
 //@   check {C02} is(a, gmodel.SimpleField) ==> !ptrHop(mappedNode)
@@ -159,8 +161,9 @@ package builder
 //@   requires wfB(b) && bmodel.wfNode(lhs) && bmodel.wfNode(rhs) && plainPath(rhs) && option.nmInv(mapper) && len(mapper.src.paths[0]) >= 1
 //@   requires forall(i, 0, len(additionalArgs), bmodel.wfNode(additionalArgs[i]) && !bmodel.returnsError(additionalArgs[i]))
 //@   use T10()
-//@   effects log
+//@   effects log, warn
 //@   ensures {C06,C07,C05} err == nil && (is(a, gmodel.SimpleField) || isNoMatch(a, bmodel.assignExpr(lhs)))
+//@   ensures {C05} isNoMatch(a, bmodel.assignExpr(lhs)) ==> $warn.n >= old($warn.n) + 2 && $warn.sink[$warn.n-1] == logger.elogger
 //@   ensures {C06} is(a, gmodel.SimpleField) ==> as(a, gmodel.SimpleField).LHS == bmodel.assignExpr(lhs)
 //@   check {C06,C07,C02,C01} is(a, gmodel.SimpleField) ==> mappedNode != nil && as(a, gmodel.SimpleField).RHS == bmodel.assignExpr(mappedNode) && as(a, gmodel.SimpleField).Error == bmodel.returnsError(mappedNode) && assignable(bmodel.exprType(mappedNode), bmodel.exprType(lhs))
 
@@ -178,7 +181,7 @@ package builder
 //@ func (*assignmentBuilder).matchStructFieldAndStruct(b, lhs, rhs, additionalArgs) (a, err)
 //@   reveal wfNode, exprType, returnsError, parentOf, objNameOf
 //@   requires wfB(b) && convsReady(b.opts) && templReady(b.opts) && bmodel.wfNode(lhs) && bmodel.wfNode(rhs) && plainPath(rhs) && argsReady(additionalArgs)
-//@   effects log
+//@   effects log, warn
 //@   assigns all(option.PatternMatcher.re), all(option.PatternMatcher.exactCase)
 //@   ensures {C06,C05} option.shouldSkip(old(b.opts), path(lhs)) ==> a == box(gmodel.SkipField{LHS: bmodel.assignExpr(lhs)}) && err == nil
 //@   ensures {C05,C06} err == nil && option.skipInv(b.opts) && okResult(a, bmodel.assignExpr(lhs))
@@ -219,11 +222,12 @@ package builder
 //@   reveal wfNode, exprType, returnsError, objNameOf, assignExpr
 //@   requires readyB(b) && bmodel.wfNode(lhs) && bmodel.wfNode(rhsStruct) && plainPath(rhsStruct)
 //@   use T10()
-//@   effects log
+//@   effects log, warn
 //@   assigns all(option.PatternMatcher.re), all(option.PatternMatcher.exactCase)
 //@   ensures {C04,C05} err == nil && okResult(a, bmodel.assignExpr(lhs)) && option.skipInv(b.opts)
 //@   ensures {C14} kept(option.pmInv, *option.PatternMatcher)
 //@   ensures {C04} b.opts.Rule == gmodel.MatchRuleNone ==> isNoMatch(a, bmodel.assignExpr(lhs))
+//@   ensures {C05} isNoMatch(a, bmodel.assignExpr(lhs)) ==> $warn.n >= old($warn.n) + 2 && $warn.sink[$warn.n-1] == logger.elogger
 //@   ensures {C06} is(a, gmodel.SimpleField) && isStructT(derefT(bmodel.exprType(lhs))) ==> !old(notationBelow(b.opts, path(lhs)))
 //@   ensures {C04} !b.opts.Getter && b.opts.Rule != gmodel.MatchRuleName ==> isNoMatch(a, bmodel.assignExpr(lhs))
 //@   atcall IterateStructMethods: {C04} opts.Getter && opts.Rule != gmodel.MatchRuleNone
@@ -231,9 +235,11 @@ package builder
 //@   iter IterateStructMethods invariant kept(option.pmInv, *option.PatternMatcher)
 //@   iter IterateStructMethods invariant *err == nil && okResult(*a, *lhsExpr) && (*a != nil ==> $done) && option.skipInv(b.opts) && *lhsExpr == bmodel.assignExpr(lhs)
 //@   iter IterateStructMethods invariant {C04} $done ==> *a != nil || *nested
+//@   iter IterateStructMethods invariant {C05} !is(*a, gmodel.NoMatchField)
 //@   iter IterateStructFields invariant kept(option.pmInv, *option.PatternMatcher)
 //@   iter IterateStructFields invariant *err == nil && okResult(*a, *lhsExpr) && (*a != nil ==> $done) && option.skipInv(b.opts) && *lhsExpr == bmodel.assignExpr(lhs)
 //@   iter IterateStructFields invariant {C04} $done ==> *a != nil || *nested
+//@   iter IterateStructFields invariant {C05} !is(*a, gmodel.NoMatchField)
 //@
 //@ spec fieldNode(lhs bmodel.Node, i int) bmodel.Node = box(bmodel.StructFieldNode{parent: lhs, field: fieldAt(structOf(bmodel.exprType(lhs)), i)})
 //@ spec accField(b *assignmentBuilder, lhs bmodel.Node, i int) bool = accessible(b, bmodel.exprType(lhs), nameOf(fieldAt(structOf(bmodel.exprType(lhs)), i)))
@@ -243,7 +249,7 @@ package builder
 //@   use T0(derefT(bmodel.exprType(lhsStruct))), T0(underlying(derefT(bmodel.exprType(lhsStruct))))
 //@   reveal wfNode, exprType, objNameOf, assignExpr
 //@   requires readyB(b) && bmodel.wfNode(lhsStruct) && bmodel.wfNode(rhsStruct) && plainPath(rhsStruct) && argsReady(additionalArgs)
-//@   effects log
+//@   effects log, warn
 //@   assigns all(option.PatternMatcher.re), all(option.PatternMatcher.exactCase)
 //@   ensures {C05} err == nil && option.skipInv(b.opts) && (r == nil || fresh(r))
 //@   ensures {C14} kept(option.pmInv, *option.PatternMatcher)
@@ -267,7 +273,7 @@ package builder
 //@ func (*FunctionBuilder).buildManipulator(p, m, src, dst, additionalArgs, retError) (r, err)
 //@   nilable m
 //@   requires wfFB(p) && (m != nil ==> wfManip(m)) && forall(i, 0, len(additionalArgs), additionalArgs[i] != nil)
-//@   effects log
+//@   effects log, warn
 //@   ensures {C10} m == nil ==> r == nil && err == nil
 //@   ensures {C10,C14} err != nil ==> r == nil
 //@   ensures {C10} m != nil && err == nil ==> r != nil && fresh(r) && r.Name == objName(m.Func) && r.RetError == m.RetError
@@ -302,7 +308,7 @@ package builder
 //@ func (*assignmentBuilder).dispatch(b, lhs, rhs, additionalArgs) (r, err)
 //@   requires readyB(b) && bmodel.wfNode(lhs) && bmodel.wfNode(rhs) && plainPath(rhs) && argsReady(additionalArgs)
 //@   reveal wfNode, exprType
-//@   effects log
+//@   effects log, warn
 //@   assigns all(option.PatternMatcher.re), all(option.PatternMatcher.exactCase)
 //@   ensures {C05,C02} err == nil && option.skipInv(b.opts) && forall(j, 0, len(r), r[j] != nil)
 //@   ensures {C14} kept(option.pmInv, *option.PatternMatcher)
@@ -310,7 +316,7 @@ package builder
 //@ func (*assignmentBuilder).build(b, lhs, rhs, additionalArgs) (r, err)
 //@   requires readyB(b) && len(b.additionalArgVars) == len(additionalArgs) && forall(i, 0, len(additionalArgs), additionalArgs[i] != nil)
 //@   reveal wfNode, exprType, returnsError, parentOf
-//@   effects log
+//@   effects log, warn
 //@   assigns all(option.PatternMatcher.re), all(option.PatternMatcher.exactCase), b.copiers, elems(b.copiers)
 //@   ensures {C05,C02} err == nil && option.skipInv(b.opts) && forall(j, 0, len(r), r[j] != nil)
 //@   ensures {C14} kept(option.pmInv, *option.PatternMatcher)
@@ -335,7 +341,7 @@ package builder
 //@   requires option.litInv(m.Opts)
 //@   requires (m.Opts.PreProcess != nil ==> wfManip(m.Opts.PreProcess)) && (m.Opts.PostProcess != nil ==> wfManip(m.Opts.PostProcess))
 //@   use T3(refOf(m.Method))
-//@   effects log
+//@   effects log, warn
 //@   assigns all(option.PatternMatcher.re), all(option.PatternMatcher.exactCase)
 //@   ensures {C08,C14} err != nil ==> fn == nil
 //@   ensures {C14} kept(option.pmInv, *option.PatternMatcher)
@@ -359,7 +365,7 @@ package builder
 //@
 //@ func (*FunctionBuilder).CreateFunctions(p, methods) (r, err)
 //@   requires wfFB(p) && forall(i, 0, len(methods), entryOK(methods[i]))
-//@   effects log
+//@   effects log, warn
 //@   assigns all(option.PatternMatcher.re), all(option.PatternMatcher.exactCase)
 //@   ensures {C08,C17,C14} err == nil ==> len(r) == len(methods) && forall(i, 0, len(r), r[i] != nil && r[i].Name == objName(methods[i].Method))
 //@   ensures err != nil ==> r == nil
